@@ -289,6 +289,85 @@ arch_damaged!(serbad_q_dbwa_n1_cols_err_third_column, RDBWA, [true, true, false,
 arch_damaged!(serbad_t_dbwa_n1_cols_err_second_column, RDBWA, [true, true, false, true] x 1, human_readable = false, at = 17, mode = read_error);
 
 // ------------------------------------------------------------------------------------------
+// Allocator::serialize: the allocator section lists the slot count and every free slot, front
+// first, with the slot's own generation -- whatever the physical layout of the free ring buffer
+// (`ROT` elements are pushed and popped first, so the deque's head is at `ROT` and its contents
+// wrap around the end of the buffer).  The decoding direction is `allocde_`.
+// ------------------------------------------------------------------------------------------
+
+macro_rules! alloc_ser {
+    ($name:ident, $N:expr, $F:expr, rot = $ROT:expr, human_readable = $HR:expr) => {
+        #[kani::proof]
+        #[kani::unwind(8)]
+        #[kani::stub(alloc::fmt::format, stub_format)]
+        pub fn $name() {
+            const N: usize = $N;
+            const F: usize = $F;
+            const ROT: usize = $ROT;
+            let id0 = ident::<RAB>(vec![3]);
+            let id1 = ident::<RAB>(vec![1]);
+            // SAFETY: the buffers outlive every use of the references below.
+            let refs = unsafe { [id0.as_ref(), id1.as_ref()] };
+            let (mut a, free) = any_allocator::<RAB, N, F>(&refs);
+            // same logical free list, rotated physical layout
+            let mut ring = alloc::collections::VecDeque::with_capacity(F);
+            let mut k = 0;
+            while k < ROT {
+                ring.push_back(usize::MAX);
+                k += 1;
+            }
+            let mut k = 0;
+            while k < F - ROT {
+                ring.push_back(free[k]);
+                k += 1;
+            }
+            let mut k = 0;
+            while k < ROT {
+                ring.pop_front();
+                k += 1;
+            }
+            let mut k = F - ROT;
+            while k < F {
+                ring.push_back(free[k]);
+                k += 1;
+            }
+            kani::cover!(ROT == 0 || ring.as_slices().1.len() == ROT, "the free ring buffer wraps");
+            a.free = ring;
+            let before = snap_alloc::<RAB, N>(&a);
+
+            let mut ser = Ser::new($HR);
+            vassert!(a.serialize(&mut ser).is_ok(), "serializing an allocator succeeds");
+
+            vassert!(ser.len == 5 + 4 * F, "the allocator section has one entry per free slot and nothing else");
+            vassert!(ser.toks.kinds[0] == Tok::Tuple.kind(), "struct start");
+            vassert!(ser.toks.kinds[1] == Tok::U64(0).kind() && ser.toks.vals[1] == N as u64, "declared length is the number of slots");
+            vassert!(ser.toks.kinds[2] == Tok::Seq.kind(), "free list start");
+            let mut j = 0;
+            while j < F {
+                let at = 3 + 4 * j;
+                vassert!(ser.toks.kinds[at] == Tok::Tuple.kind() && ser.toks.kinds[at + 3] == Tok::TupleEnd.kind(), "free entry is an identifier");
+                vassert!(ser.toks.kinds[at + 1] == Tok::U64(0).kind() && ser.toks.vals[at + 1] == free[j] as u64, "free slots are written front first, each exactly once");
+                let mut i = 0;
+                while i < N {
+                    if i == free[j] {
+                        vassert!(ser.toks.kinds[at + 2] == Tok::U64(0).kind() && ser.toks.vals[at + 2] == before[i].generation, "a free slot is written with its own generation");
+                    }
+                    i += 1;
+                }
+                j += 1;
+            }
+            vassert!(ser.toks.kinds[3 + 4 * F] == Tok::SeqEnd.kind() && ser.toks.kinds[4 + 4 * F] == Tok::TupleEnd.kind(), "free list and struct are closed");
+            kani::cover!(true, "reached end");
+        }
+    };
+}
+
+alloc_ser!(allocser_q_n3_f3_rot2, 3, 3, rot = 2, human_readable = false);
+alloc_ser!(allocser_t_n3_f2_rot1_hr, 3, 2, rot = 1, human_readable = true);
+alloc_ser!(allocser_t_n2_f0, 2, 0, rot = 0, human_readable = false);
+alloc_ser!(allocser_t_n4_f4_rot3, 4, 4, rot = 3, human_readable = false);
+
+// ------------------------------------------------------------------------------------------
 // archetype::Identifier: accepted exactly when the padding bits are clear
 // ------------------------------------------------------------------------------------------
 
